@@ -324,7 +324,21 @@ pub fn gen_case(r: &mut Rng) -> Case {
         1 => 1,
         _ => r.below(8) as usize,
     };
-    let extra: Vec<LL> = (0..n_extra).map(|_| gen_point(r, 90.0)).collect();
+    let extra: Vec<LL> = if r.chance(1, 48) {
+        // a long track (hundreds of coordinates, short steps): block-wise or batched summation must not lose
+        // the segments between the blocks
+        let n = *r.pick(&[255usize, 256, 257, 258, 300, 511, 513, 700, 1030]);
+        let step = pow10(r, -4.0, -0.5);
+        let mut p = a;
+        (0..n)
+            .map(|_| {
+                p = clamp_ll(LL { lon: p.lon + step * (2.0 * r.f01() - 0.7), lat: (p.lat + step * (2.0 * r.f01() - 1.0)).clamp(-89.0, 89.0) });
+                p
+            })
+            .collect()
+    } else {
+        (0..n_extra).map(|_| gen_point(r, 90.0)).collect()
+    };
     let ell = if r.chance(1, 4) { (pow10(r, 5.0, 7.5), 0.012 * r.f01()) } else { *r.pick(&ELLIPSOIDS) };
     let radius = if r.chance(1, 4) { pow10(r, 0.0, 8.0) } else { *r.pick(&RADII) };
     Case {
@@ -1179,7 +1193,7 @@ fn check_length(cx: &mut Cx, sp: &dyn Space) {
             cx.tol("length.sum", "length(MultiLineString with an empty and a one-coordinate member)", (g - sum).abs(), t, "|length - sum of segment distances| <= 16 n u sum");
         }
     }
-    cx.sh.class(&format!("length:linestring_points:{}", n.min(4)));
+    cx.sh.class(&format!("length:linestring_points:{}", if n > 256 { 257 } else { n.min(4) }));
 }
 
 // ------------------------------------------------------------------------------------------ legacy traits
@@ -1301,12 +1315,13 @@ pub fn check_case(sh: &mut Shard, case: &Case, verbose: bool) {
         println!("case {}: a = ({:?}, {:?})  b = ({:?}, {:?})  r = {:?}  free bearing {:?}  free distance {:?}  seg {:?}  stratum {}", case.kind, case.a.lon, case.a.lat, case.b.lon, case.b.lat, case.r, case.theta, case.s, case.seg, st.name());
     }
     // documented radii (HaversineMeasure docs; Moritz 2000): exact constants
-    sh.eval(4);
+    sh.eval(5);
     for (name, got, want) in [
         ("Haversine", Haversine.radius(), R_MEAN),
         ("HaversineMeasure::GRS80_MEAN_RADIUS", HaversineMeasure::GRS80_MEAN_RADIUS.radius(), R_MEAN),
         ("HaversineMeasure::GRS80_EQUAL_AREA", HaversineMeasure::GRS80_EQUAL_AREA.radius(), R_AREA),
         ("HaversineMeasure::GRS80_EQUAL_VOLUME", HaversineMeasure::GRS80_EQUAL_VOLUME.radius(), R_VOL),
+        ("HaversineMeasure::default()", HaversineMeasure::default().radius(), R_MEAN),
     ] {
         if got != want {
             sh.violation(&format!("radius.documented|{name}.radius|-"), json!({"property": "C16", "check": "radius.documented", "expected": want, "got": got, "case": case.json()}));
